@@ -241,7 +241,7 @@ def run_c11(ctx):
         raise Violation("reaper-slow-after-growers-done",
                         "reaper slept {} more times after all growers had finished".format(
                             state["reaper_sleeps_after_done"]))
-    if state["reaper_ops_after_done"] > 80 * (B + 1):
+    if state["reaper_ops_after_done"] > 400 * (B + 1):
         raise Violation("reaper-slow-after-growers-done",
                         "reaper needed {} operations after all growers had finished".format(
                             state["reaper_ops_after_done"]))
